@@ -111,6 +111,11 @@ def apply(drv: CL.Driver, a: Dict[str, Any], km, tk, inst):
         node.meta[key] = val
     elif op == "detach":
         del mc[km.path(a["p"])].meta[a["schema"]]
+    elif op == "passthrough":
+        # an attribute of the raw object that the container interface does not define
+        getattr(mc if a["on"] == "file" else mc[km.path(a["p"])], a["method"])
+    elif op == "reserved" and a["method"].startswith("auto:"):
+        call_catalogue(mc, a, km, tk)
     elif op == "reserved":
         path = a["rpath"]
         base = mc
@@ -150,6 +155,68 @@ def apply(drv: CL.Driver, a: Dict[str, Any], km, tk, inst):
             raise RuntimeError("harness: unknown reserved method " + m)
     else:
         raise RuntimeError("harness: unknown op " + op)
+
+
+PATH_PARAMS = ("name", "path", "source", "dest", "key")
+
+
+def catalogue() -> List[Any]:
+    """Every public callable of the group interface that takes a path, with the position(s)
+    of its path parameters: the members of the H5GroupLike protocol plus whatever
+    MetadorGroup itself defines (so a newly added method is probed without editing this)."""
+    import inspect
+    from metador_core.container import MetadorGroup
+    from metador_core.util.types import H5GroupLike
+    names = set(n for n in dir(H5GroupLike) if not n.startswith("_") or n in
+                ("__getitem__", "__setitem__", "__delitem__", "__contains__"))
+    names |= set(n for n in dir(MetadorGroup) if not n.startswith("_"))
+    out = []
+    for n in sorted(names):
+        f = getattr(MetadorGroup, n, None)
+        if not callable(f) or isinstance(f, property):
+            continue
+        try:
+            params = [p for p in inspect.signature(f).parameters.values()][1:]
+        except (TypeError, ValueError):
+            continue
+        pos = [k for k, p in enumerate(params) if p.name in PATH_PARAMS and p.kind in
+               (p.POSITIONAL_ONLY, p.POSITIONAL_OR_KEYWORD)]
+        for k in pos:
+            out.append((n, k, [p.name for p in params if p.kind in (p.POSITIONAL_ONLY, p.POSITIONAL_OR_KEYWORD)
+                               and p.default is p.empty]))
+    return out
+
+
+def call_catalogue(mc, a, km, tk):
+    _, n, k = a["method"].split(":")
+    k = int(k)
+    required = a["required"]
+    args = []
+    for j, pname in enumerate(required):
+        if j == k:
+            args.append(a["rpath"])
+        elif pname in ("source",):
+            args.append(km.path(a["p"]))
+        elif pname in PATH_PARAMS:
+            args.append("zz_target")
+        elif pname in ("func",):
+            args.append(lambda *x: None)
+        else:
+            args.append(tk.pool["v1"])
+    while len(args) <= k:
+        args.append(a["rpath"])
+    f = getattr(mc, n)
+    r = f(*args)
+    if n in ("get",) and r is None:
+        raise KeyError("nothing handed out")
+    if n == "__contains__" and r is False:
+        raise KeyError("not contained")
+
+
+def passthrough_names(raw_group) -> List[str]:
+    from metador_core.container import MetadorGroup
+    own = set(dir(MetadorGroup)) | {"mode", "flush", "close"}
+    return sorted(n for n in dir(raw_group) if not n.startswith("_") and n not in own)
 
 
 def gen(rng: random.Random, h5rec: Dict[str, Any], stage: int) -> Dict[str, Any]:
@@ -274,6 +341,41 @@ def run_history(job: Dict[str, Any], emit, scratch: Path, tk: h5lib.Tokens, env:
                 out.append(o)
             prev = out[0]
             emit({"t": "end", "tid": tid, "ev": {"op": a["op"], "a": a, "env": snap, "d": out}})
+        if job.get("catalogue"):
+            # every path-taking method x every reserved path shape, and every raw attribute that the
+            # interface does not define; each must be refused without any effect
+            groups = [n["p"] for n in prev["tree"] if n["k"] == "g" and n["p"]] if prev else []
+            g = "/".join(groups[0]) if groups else "g0"
+            somep = next((n["p"] for n in (prev["tree"] if prev else []) if n["p"]), ["a"])
+            todo = []
+            for (mname, k, required) in catalogue():
+                for shape in RESERVED_SHAPES:
+                    todo.append({"op": "reserved", "method": f"auto:{mname}:{k}", "required": required,
+                                 "rpath": shape.format(g=g, k="a"), "p": somep})
+            for nm in passthrough_names(drvs[0].raw["/"]):
+                todo.append({"op": "passthrough", "method": nm, "on": "group", "p": groups[0] if groups else []})
+            for nm in passthrough_names(drvs[0].raw):
+                todo.append({"op": "passthrough", "method": nm, "on": "file", "p": []})
+            base_a = {"op": "", "p": [], "q": [], "key": "", "v": "", "without_meta": False, "schema": "", "sver": [],
+                      "valid": True, "by": "", "cls": "", "as": "", "method": "", "rpath": "", "via": 0}
+            for a0 in todo:
+                a = {**base_a, **a0}
+                emit({"t": "begin", "tid": tid, "i": step, "e": a})
+                out = []
+                for d in drvs:
+                    ok, exc = True, ""
+                    if a["op"] == "passthrough" and not hasattr(d.raw if a["on"] == "file" else d.raw["/"], a["method"]):
+                        ok, exc = False, "n/a for this driver"
+                    else:
+                        try:
+                            apply(d, a, km, tk, None)
+                        except Exception as ex:
+                            ok, exc = False, type(ex).__name__ + ": " + str(ex)[:120]
+                    o = observe(d, km, tk, rng, snap, originals, 0)
+                    o.update(ok=ok, exc=exc)
+                    out.append(o)
+                a.pop("required", None)
+                emit({"t": "end", "tid": tid, "ev": {"op": a["op"], "a": a, "env": snap, "d": out}})
         emit({"t": "done", "tid": tid})
     finally:
         for d in drvs:
